@@ -210,7 +210,7 @@ Touch(k, entry, e, d1) ==
 Init == /\ l = 1 /\ cache = << >> /\ cfg = [M |-> 1152, ttl |-> 120000] /\ live = FALSE /\ loose = FALSE
         /\ kfs = 0 /\ bad = << >> /\ done = FALSE /\ drift = 0
 
-RejectEv(props, why) == bad' = Append(bad, BadEntry(l, props, why))
+RejectEv(props, why) == bad' = AddBad(bad, BadEntry(l, props, why))
 
 StepCall(e) ==
   LET k == KeyOf(MsgOf(e.req), e.ep)
@@ -226,7 +226,7 @@ StepCall(e) ==
        /\ UNCHANGED << drift, live >>
        /\ IF IsDupFinal(e, k) /\ x.out = OkR(FALSE)
           THEN \* C09: an identical final block repeated in a row must not reach the application again
-               /\ bad' = Append(bad, [i |-> l, props |-> {"C09"}, why |-> "duplicated final Block1 block passed to the application again",
+               /\ bad' = AddBad(bad, [i |-> l, props |-> {"C09"}, why |-> "duplicated final Block1 block passed to the application again",
                                       sig |-> "dup-final-block-redelivered"])
                /\ kfs' = kfs + 1
           ELSE /\ kfs' = kfs
